@@ -19,7 +19,8 @@ JudgeFromBytes(e) ==
   LET d == Decode(e.in) IN
   IF e.out.k = "panic" THEN {"C03"}
   ELSE IF e.out.k = "err" THEN (IF d.verdict = "must_accept" THEN {"C03"} ELSE {})
-  ELSE IF d.verdict = "must_reject" THEN {"C03"}
+  \* C02 speaks about every datagram the parser accepts - also one it should have rejected
+  ELSE IF d.verdict = "must_reject" THEN {"C03"} \cup (IF e.re.k = "ok" /\ e.re.bytes = e.in THEN {} ELSE {"C02"})
   ELSE (IF SameFields(e.out.msg, d.msg) THEN {} ELSE {"C03"})
        \cup (IF e.re.k = "ok" /\ e.re.bytes = Canon(e.in) THEN {} ELSE {"C02"})
 
